@@ -43,7 +43,7 @@ def gen_tone(rng):
     if not ks:
         start, nchans, ks = 1, 1, [1]
     k = rng.choice(ks)
-    L = rng.choice([16, 32, 64]); I = rng.choice([1, 2, 3])
+    L = rng.choice([16, 32, 64, 15, 9, 33]); I = rng.choice([1, 2, 3])        # odd fine-FFT lengths too
     asc = rng.random() < 0.5
     fch1 = float(rng.choice([0, 10 ** 9, 6 * 10 ** 9]))
     r = rng.random()
@@ -54,13 +54,17 @@ def gen_tone(rng):
     f = fch1 + (1 if asc else -1) * (k + frac) * cbw
     num_pols = rng.choice([1, 2, 2]); nbits = rng.choice([4, 8, 8]); nants = rng.choice([1, 1, 2])
     rows = rng.choice([2, 4, 6]) * I
+    if (L * rows) % taps:
+        rows *= taps            # samples per block must be a multiple of the taps (constructor assertion); matters for odd L
     spb = L * rows
     bps = 2 * num_pols * nbits // 8
     drift = 0.0
-    if rng.random() < 0.35:
+    if rng.random() < 0.35 and L >= 15:
         # move by a few fine bins over the block.  To keep the spectral peak well defined (a DSP matter, not what C07 is about) the sweep
         # stays at least two fine bins inside the coarse channel (no aliasing at the channel edge) and moves at most half a bin per spectrum
         rows = 6 * I
+        if (L * rows) % taps:
+            rows *= taps
         spb = L * rows
         frac = max(-(0.5 - 5.0 / L), min(0.5 - 5.0 / L, frac))
         if abs(frac) < 0.03:
@@ -165,6 +169,9 @@ def run(ctx):
                                        "%s reducer: spectrum %d peaks at %.3f Hz by the file's header, tone is at %.3f Hz (fine bin %.3f Hz; %s, start_chan %d, PFB channel %d)"
                                        % ("library" if path == "lib" else "independent", row, f, want, fine, "ascending" if c["ascending"] else "descending", c["start_chan"], c["k"]), c)
                     break
+        if r.get("lib_vs_indep_maxdiff") is not None and r["lib_vs_indep_maxdiff"] > 1e-6:
+            ctx.impl_violation("reducer-bins", "get_waterfall_from_raw(fftlength=%d) puts power in other fine bins than a per-channel FFT + fftshift of the same bytes "
+                               "(normalised spectra differ by %.3g; peaks at columns %s vs %s)" % (c["fftlength"], r["lib_vs_indep_maxdiff"], r.get("lib_peak_idx"), r["indep_peak_idx"][:len(r.get("lib_peak_idx") or [])]), c)
         if "lib_error" in r:
             ctx.impl_violation("reducer-raises", "get_waterfall_from_raw raised %s" % r["lib_error"], c)
         if "lib_shape" in r:
